@@ -1141,6 +1141,46 @@ def outcome_from_record(res):
 # R-DESC
 
 
+def _describe_with_empty(a, reg):
+    """same as describe() but a key registered with id 0 renders as \"\" """
+    zero = {k for k, v in reg.items() if v == 0}
+    k = a[0]
+    key = {"un": ("UNARY", a[1]) if k == "un" else None, "bin": ("BINARY", a[1]) if k == "bin" else None, "post": ("POSTFIX", a[2]) if k == "post" else None, "tern": ("TERNARY",), "fn": ("FUNCTION", a[1]) if k == "fn" else None,
+           "ref": ("REFERENCE", a[1]) if k == "ref" else None, "list": ("LIST",), "map": ("MAP",), "stmt": ("CHAIN",)}.get(k)
+    if key in zero:
+        return ""
+    reg2 = {kk: v for kk, v in reg.items() if v != 0}
+    d = lambda x: _describe_with_empty(x, reg)
+    if k == "un":
+        i = reg2.get(("UNARY", a[1])); r = d(a[2])
+        return "<U%d|%s|%s>" % (i, a[1], r) if i is not None else a[1] + r
+    if k == "bin":
+        i = reg2.get(("BINARY", a[1])); l, r = d(a[2]), d(a[3])
+        return "<B%d|%s|%s|%s>" % (i, a[1], l, r) if i is not None else l + a[1] + r
+    if k == "post":
+        i = reg2.get(("POSTFIX", a[2])); l = d(a[1])
+        return "<P%d|%s|%s>" % (i, l, a[2]) if i is not None else l + a[2]
+    if k == "tern":
+        i = reg2.get(("TERNARY",)); c, l, r = d(a[1]), d(a[2]), d(a[3])
+        return "<T%d|%s|%s|%s>" % (i, c, l, r) if i is not None else c + "?" + l + ":" + r
+    if k == "fn":
+        i = reg2.get(("FUNCTION", a[1])); args = [d(x) for x in a[2]]
+        return "<F%d|%s|%s>" % (i, a[1], "#".join(args)) if i is not None else a[1] + "(" + ",".join(args) + ")"
+    if k == "ref":
+        i = reg2.get(("REFERENCE", a[1]))
+        return "<R%d|%s>" % (i, a[1]) if i is not None else a[1]
+    if k == "list":
+        i = reg2.get(("LIST",)); items = [d(x) for x in a[1]]
+        return "<L%d|%s>" % (i, "#".join(items)) if i is not None else "[" + ",".join(items) + "]"
+    if k == "map":
+        i = reg2.get(("MAP",)); items = [(d(kk), d(v)) for kk, v in a[1]]
+        return "<M%d|%s>" % (i, "#".join(kk + "~" + v for kk, v in items)) if i is not None else "{" + ",".join(kk + ":" + v for kk, v in items) + "}"
+    if k == "stmt":
+        i = reg2.get(("CHAIN",)); items = [d(x) for x in a[1]]
+        return "<C%d|%s>" % (i, "#".join(items)) if i is not None else ";".join(items)
+    return describe(a, {})
+
+
 def describe(a, reg):
     """describe() of a reference AST. `reg` maps ("UNARY", op) / ("BINARY", op) / ("POSTFIX", op) /
     ("TERNARY",) / ("FUNCTION", name) / ("REFERENCE", name) / ("LIST",) / ("MAP",) / ("CHAIN",) to the
@@ -1155,6 +1195,9 @@ def describe(a, reg):
     if k == "none":
         return ""
     d = lambda x: describe(x, reg)
+    # marker id 0 stands for a descriptor that renders its node as the empty string
+    if any(v == 0 for v in reg.values()):
+        return _describe_with_empty(a, reg)
     if k == "un":
         i = reg.get(("UNARY", a[1]))
         r = d(a[2])
